@@ -381,6 +381,9 @@ def run(ctx):
     rep.assumptions += ['clang -O0 IR of the instantiated skeleton is a faithful rendering of the generated source',
                         'C++ virtual calls (yywrap, yyrestart, ...) resolve to the yyFlexLexer implementations',
                         'the probe specifications are owned by the machinery: the number of start conditions is read from the probe text']
+    import act_tbl
+    act_tbl.eof_rule(ctx, rep, 'C10.R6')
+    rep.floor('C10.R6', 30, 'end-of-file arms of the EOF probes')
     return rep.finish('other',
         'Must-pass-through analysis on the LLVM IR of %d scanner variants (all back ends): from the end-of-file arm of the refill switch to return / refill / EOF '
         'action through the yywrap call, edge-sensitive on the test of its result; case-set check of the action switch against the declared start conditions; '
